@@ -81,9 +81,27 @@ def oracle_path(ctx, p, label, replay):
     return ap, ar, arr
 
 
+def translated_model(ctx):
+    """the action classes' inv(), reverse_path and ScheduleInterpreter.reverse translated from source on every run
+    (harness/gen/taskgen_translate.py, fail-closed) and proved equal to Model/Reverse.v; the reversal laws restated for the translation"""
+    from gen import taskgen_translate
+    from vcommon import paths
+    try:
+        body = taskgen_translate.generate(paths.REPO)
+    except Exception as e:
+        ctx.obligation("taskgen.py / schedule/concrete.py are inside the translated fragment (generated model Gen_C02_src.v)", False, f"{type(e).__name__}: {e}"[:300])
+        return
+    ctx.obligation("taskgen.py / schedule/concrete.py are inside the translated fragment (generated model Gen_C02_src.v)", True)
+    ok, log = coqrun.compile_lemma_file(ctx.bdir, "Gen_C02_src", body)
+    closed = log.count("Closed under the global context")
+    ctx.obligation("generated inv / reverse_path / schedule-level reverse = the hand model (gen_inv_eq, gen_reverse_path_eq, gen_sched_reverse_eq), "
+                   "closed under the global context", ok and closed >= 4, log[-600:])
+
+
 def run(ctx):
     from bloqade.shuttle.codegen import taskgen as T
     reflect_inv(ctx)
+    translated_model(ctx)
     ctx.rule = ("paths: (a) built directly from the 9 action classes with random fields (segments of length 0-5, all selector kinds, "
                 "ill-formed orders included), (b) traced from generated kernels; each reversed once and twice; non-trivial = distinct paths "
                 "with >= 2 actions; schedule level: f, reverse(f), reverse(reverse(f)) with equal arguments on the fold / stamped-spec / "
